@@ -39,7 +39,10 @@ def mkcfg(**kw):
     return c
 
 
-def write_mc(name, cfg, maxfaults, cmds, known, outdir, emit=True, invariant="OnlyKnown", extra_cfg="", blackouts=(), injects=()):
+ALLKINDS = ("drop", "dup", "reorder", "hold")
+
+
+def write_mc(name, cfg, maxfaults, cmds, known, outdir, emit=True, invariant="OnlyKnown", extra_cfg="", blackouts=(), injects=(), kinds=ALLKINDS):
     os.makedirs(outdir, exist_ok=True)
     # fsreqs / pre in TLA+ form
     mod = os.path.join(outdir, "MC_%s.tla" % name)
@@ -51,6 +54,7 @@ def write_mc(name, cfg, maxfaults, cmds, known, outdir, emit=True, invariant="On
         f.write("MaxFaults == %d\n" % maxfaults)
         f.write("Cmds == %s\n" % tla(set(tuple(c) for c in cmds)))
         f.write("KnownSigs == %s\n" % tla(set(known)))
+        f.write("FaultKinds == %s\n" % tla(set(kinds)))
         f.write("Blackouts == %s\n" % tla(set(blackouts)))
         f.write("Injects == %s\n" % tla([{"ch": i["ch"], "pdu": model_pdu(i["pdu"], cfg)} for i in injects]))
         f.write("VARIABLES %s\n" % VARS)
@@ -117,10 +121,10 @@ def model_pdu(p, cfg):
     return d
 
 
-def run_model(name, cfg, maxfaults, cmds, known, workdir, workers=8, timeout=3600, emit=True, xmx="12g", blackouts=(), injects=()):
+def run_model(name, cfg, maxfaults, cmds, known, workdir, workers=8, timeout=3600, emit=True, xmx="12g", blackouts=(), injects=(), kinds=ALLKINDS):
     """returns (TlcResult, maximal scripts as lists of step dicts)"""
     mod, cfgp = write_mc(name, cfg, maxfaults, cmds, known, os.path.join(workdir, "mc"), emit=emit,
-                         blackouts=blackouts, injects=injects)
+                         blackouts=blackouts, injects=injects, kinds=kinds)
     r = tlc.run(mod, cfgp, os.path.join(workdir, "tlc-" + name), workers=workers, timeout=timeout, xmx=xmx,
                 extra=[])
     paths = []
